@@ -392,7 +392,7 @@ var (
 	tTypes     = reflect.TypeOf(openapi3.Types{})
 	tAddProps  = reflect.TypeOf(openapi3.AdditionalProperties{})
 	c03_tOrigin    = reflect.TypeOf(openapi3.Origin{})
-	c03Strings = []string{"s", "a b", "x-y", "true", "12", "2020-01-02", "null", "é✓", "a: b", "#/x", "~", "0x1f", " lead", "multi\nline"}
+	c03Strings = []string{"s", "a b", "x-y", "true", "12", "2020-01-02", "null", "é✓", "a: b", "#/x", "~", "0x1f", " lead", "multi\nline", "date", "2020-01-02T00:00:00Z", "T00:00:00Z", "[]", "{}", "1e3", "-", "yes"}
 )
 
 func c03IsRefWrapper(t reflect.Type) bool {
@@ -799,7 +799,8 @@ func c03Variants(g *c03Gen, t reflect.Type) []any {
 		if c03IsRefWrapper(t) {
 			vf, _ := t.FieldByName("Value")
 			ref := c03Collection(t) + "A"
-			out := []any{map[string]any{"$ref": ref}, map[string]any{"$ref": ref, "x-sib": 1, "description": "sibling"}, map[string]any{"$ref": ""}}
+			out := []any{map[string]any{"$ref": ref}, map[string]any{"$ref": ref, "x-sib": 1, "description": "sibling"}, map[string]any{"$ref": ""},
+				map[string]any{"$ref": 5}, map[string]any{"$ref": nil, "description": "d"}, map[string]any{"$ref": "", "description": "d", "x-e": 1}}
 			return append(out, c03Variants(g, vf.Type.Elem())...)
 		}
 		g1 := &c03Gen{r: g.r, sloppy: 0}
@@ -947,9 +948,9 @@ func genC03(ctx *hx.Ctx, emit func(hx.Case)) {
 		}
 	}
 	// 2. random nested documents of every kind
-	n := 60
+	n := 200
 	if ctx.Thorough() {
-		n = 600
+		n = 3000
 	}
 	for i := 0; i < n; i++ {
 		for _, k := range c03Kinds {
@@ -962,9 +963,9 @@ func genC03(ctx *hx.Ctx, emit func(hx.Case)) {
 		}
 	}
 	// 3. whole v3 documents through the loader (references resolvable)
-	m := 150
+	m := 400
 	if ctx.Thorough() {
-		m = 2500
+		m = 8000
 	}
 	tk := c03ByName["kind:openapi3.T"]
 	for i := 0; i < m; i++ {
